@@ -16,7 +16,7 @@ from explore import expect, conc, Violation
 
 PROPERTY = 'C18'
 CICADA = os.path.join(hsupport.VERIF, 'build/bin/debug/cicada')
-BUDGET = {'quick': 300, 'thorough': 2400}
+BUDGET = {'quick': 900, 'thorough': 2400}
 BOUNDS = {'quick': dict(n=3), 'thorough': dict(n=5)}
 ASSUMPTIONS = [
     'statement-assembly level: rusqlite (FFI) is replaced by stubs capturing the SQL text; sqlite\'s own behaviour (durability, ordering by time stamp, visibility to later processes, the duplicate purge of history::init) and the main loop\'s decision what to record (leading blank, immediate repeat; main.rs, needs a terminal) are outside',
